@@ -41,6 +41,7 @@ structure Entry where
   gid : Int := 0
   size : Option Int := some 0
   mtime : Int := 0
+  mtimeNs : Nat := 0
   uname : List Nat := []
   gname : List Nat := []
   sym : List Nat := []
@@ -522,7 +523,7 @@ def rdevSplit (rb : RB) (d : Nat) : RB :=
   { rb with rdevmajor := (devMajorN d : Nat), rdevminor := (devMinorN d : Nat) }
 
 /-- The cpio reader (odc and newc headers as written by the modelled writers). -/
-def cpioRead (newc : Bool) (bs : List Nat) (fmt : Nat) (tab : LinkTab) (acc : List RB) : ReadResult :=
+def cpioRead (partialRead newc : Bool) (bs : List Nat) (fmt : Nat) (tab : LinkTab) (acc : List RB) : ReadResult :=
   let hsz := if newc then newcr_header_size else odcr_header_size
   if bs.length < hsz then ⟨fmt, acc.reverse, .fatal⟩ else
   let h := bs.take hsz
@@ -567,14 +568,15 @@ def cpioRead (newc : Bool) (bs : List Nat) (fmt : Nat) (tab : LinkTab) (acc : Li
     let (tab, rb) := recordHardlink tab rb
     if rest.length < bodypad then ⟨fmt, ({ rb with bodySt := .fatal } :: acc).reverse, .fatal⟩ else
     if hsz + namelen + namepad + filesize + bodypad = 0 then ⟨fmt, acc.reverse, .fatal⟩ else
-    cpioRead newc (rest.drop bodypad) fmt tab (rb :: acc)
+    cpioRead partialRead newc (rest.drop bodypad) fmt tab (rb :: acc)
   else if namelen = 11 ∧ (cstr (bs.drop hsz |>.take namelen)) = trailerName then ⟨fmt, acc.reverse, .eof⟩
   else
     let (tab, rb) := recordHardlink tab rb
+    if partialRead ∧ filesize > 1048576 then ⟨fmt, (rb :: acc).reverse, .ok⟩ else
     if rest.length < filesize + bodypad then
       ⟨fmt, ({ rb with body := rest.take filesize, bodySt := .fatal } :: acc).reverse, .fatal⟩
     else
-      cpioRead newc (rest.drop (filesize + bodypad)) fmt tab ({ rb with body := rest.take filesize } :: acc)
+      cpioRead partialRead newc (rest.drop (filesize + bodypad)) fmt tab ({ rb with body := rest.take filesize } :: acc)
 termination_by bs.length
 decreasing_by
   all_goals simp only [List.length_drop]
@@ -583,8 +585,8 @@ decreasing_by
 
 /-- Format auto-detection restricted to what the three writers produce. -/
 def readArchive (partialRead : Bool) (bs : List Nat) : ReadResult :=
-  if bs.take 6 = [48, 55, 48, 55, 48, 55] then cpioRead false bs ARCHIVE_FORMAT_CPIO_POSIX [] []
-  else if bs.take 6 = [48, 55, 48, 55, 48, 49] then cpioRead true bs ARCHIVE_FORMAT_CPIO_SVR4_NOCRC [] []
+  if bs.take 6 = [48, 55, 48, 55, 48, 55] then cpioRead partialRead false bs ARCHIVE_FORMAT_CPIO_POSIX [] []
+  else if bs.take 6 = [48, 55, 48, 55, 48, 49] then cpioRead partialRead true bs ARCHIVE_FORMAT_CPIO_SVR4_NOCRC [] []
   else tarRead partialRead bs 0 ARCHIVE_FORMAT_TAR []
 
 end LA.Codec
